@@ -48,6 +48,9 @@ def strategy(tier):
         limits=st.sampled_from([0.0, 0.6]),
         frictionloss=st.sampled_from([0.0, 0.4]),
         sleep_policy=st.sampled_from([None, ["auto", "never", "allowed", "init"]]),
+        # jointless root bodies (static pedestals with several jointed children) and mocap bodies: frames that only one task of a launch writes and others may read
+        static_roots=st.sampled_from([0.0, 0.0, 0.5]),
+        mocap=st.integers(0, 2),
         # long chains: kernels that split one row / one tree over several tasks (dense rows are cut into dof chunks above nv 20)
         chains=st.sampled_from([[], [], [], [["mixed", 24]], [["hinge", 31]], [["star", 20]]]),
       ),
